@@ -172,12 +172,14 @@ def _subdaily(cin, variant):
         return {"res": "BadRealisation", "err": "%d readings on the day, expected %d" % (len(pos), cin["total"]), "has": False, "n": 0, "d": 1, "ok": False}
     for i, p in enumerate(pos, start=1):
         obs[p] = np.nan if i in cin["missing"] else float(val(i))
-    if variant == "absent-rows":
+    if variant.startswith("absent-rows"):
         keep = ~np.isnan(obs)
     else:
         keep = np.ones(len(idx), bool)
     hr = idx.hour.to_numpy()
     frame = pd.DataFrame({"temperature": 55.0 + (hr % 12), "observed": obs}, index=idx)[keep]
+    if variant.endswith("-from7"):          # the meter's first reading is at 07:00 of the first day, not at local midnight
+        frame = frame[frame.index >= frame.index[0] + pd.Timedelta(hours=7)]
     out = {"res": "ok", "has": False, "n": 0, "d": 1, "ok": False}
     try:
         if twin:
@@ -222,6 +224,28 @@ def _temp(cin, variant):
         tgt = (pd.Timestamp(date) - pd.Timedelta(days=1 if mh else 0)).date()
         meter[(meter.index.date == tgt) | (meter.index.date == (pd.Timestamp(tgt) + pd.Timedelta(days=1)).date())] = 0.0
     out = {"res": "ok", "has": False, "n": 0, "d": 1, "ok": False, "notnull": -1, "null": -1}
+    if variant.startswith("nometer"):
+        # a reporting period without any meter reading: only the weather feed is handed over (in UTC with tzinfo= the meter's zone, or as
+        # a local-time frame that starts at 07:00); the days are the local calendar days all the same
+        try:
+            if variant == "nometer-utc":
+                f2 = feed.copy()
+                f2.index = f2.index.tz_convert("UTC")
+                obj = em.DailyReportingData.from_series(None, f2, tzinfo=idx.tz)
+            else:
+                obj = em.DailyReportingData(feed[feed.index >= feed.index[0] + pd.Timedelta(hours=7)].to_frame("temperature"), is_electricity_data=True)
+            df = obj.df
+        except Exception as ex:
+            out["res"] = type(ex).__name__
+            out["err"] = str(ex)[:200]
+            return {"in2": dict(cin, nometer=True), "out": out}
+        row = df[df.index.date == pd.Timestamp(date).date()]
+        if len(row) == 1 and np.isfinite(row["temperature"].iloc[0]) and row.index[0].hour == 0:
+            out["has"] = True
+            out["n"], out["d"], out["ok"] = snap(float(row["temperature"].iloc[0]))
+        elif len(row) == 1 and np.isfinite(row["temperature"].iloc[0]):
+            out["has"], out["ok"] = True, False          # a day that is not stamped at local midnight is not that local day
+        return {"in2": dict(cin, nometer=True), "out": out}
     try:
         C = em.DailyBaselineData if variant != "billing" else em.DailyBaselineData
         obj = C.from_series(meter, feed, is_electricity_data=bool(elec0))
